@@ -5,6 +5,7 @@ import flowpaths.utils as utils
 import flowpaths.nodeexpandeddigraph as nedg
 import copy
 import time
+import math
 
 class kFlowDecompCycles(walkmodel.AbstractWalkModelDiGraph):
     def __init__(
@@ -173,8 +174,14 @@ class kFlowDecompCycles(walkmodel.AbstractWalkModelDiGraph):
         # Build per-edge repetition upper bounds: use the edge flow when available,
         # otherwise fall back to self.w_max (e.g., for source/sink helper edges).
         # The flow value of an ignored edge bounds nothing: its flow constraint is not part of the model.
+        # A walk crosses an ignored edge at most once more than it crosses non-ignored edges, and (the weights being at
+        # least 1) it crosses those at most as often as the sum of their flow values.
+        ignored_edge_bound = self.G.number_of_edges() + math.ceil(sum(
+            data[self.flow_attr] for u, v, data in self.G.edges(data=True)
+            if self.flow_attr in data and (u, v) not in self.edges_to_ignore
+        ))
         self.edge_upper_bounds_dict = {
-            (u, v): (data[self.flow_attr] if self.flow_attr in data and (u, v) not in self.edges_to_ignore else self.w_max)
+            (u, v): (data[self.flow_attr] if self.flow_attr in data and (u, v) not in self.edges_to_ignore else ignored_edge_bound)
             for u, v, data in self.G.edges(data=True)
         }
         super().__init__(
